@@ -1,6 +1,43 @@
 /* kernsim main.c: #includes the *working-tree copy* of control/kern/tproxy.c
  * (unmodified; copied next to this file by build.sh) and serves a binary
- * request/response protocol on stdin/stdout. Wire format: PROTOCOL.md. */
+ * request/response protocol on stdin/stdout.
+ *
+ * WIRE FORMAT (little endian). Request  = u32 n | u8 op | payload (n = 1+len(payload)).
+ * Response = u32 n | u8 status | payload; status 0 = ok, 1 = malformed request
+ * (payload = str message). str = u8 len + bytes; blob = u32 len + bytes;
+ * oplog = u32 count, count * { u8 op ('L'ookup res 1/0, 'U'pdate res=ret, 'D'elete
+ * res=ret), str map, u16 keylen, key bytes, s32 res } (per-cpu scratch maps omitted;
+ * inner LPM tries are named "lpm#<slot>").
+ *
+ *  1 RESET           -                                        -> -
+ *  2 SET_PARAM       blob raw struct dae_param                 -> -
+ *  3 SET_CLOCK       u64 ns                                    -> -
+ *  4 MAP_UPDATE      str map, blob key, blob value, u64 flags  -> s32 ret
+ *  5 MAP_DELETE      str map, blob key                         -> s32 ret
+ *  6 MAP_LOOKUP      str map, blob key                         -> u8 found, blob value
+ *  7 MAP_DUMP        str map                                   -> u32 keysz, u32 valsz, u32 n, n*(key,value)
+ *  8 LPM_SLOT        u32 slot, u8 action(0 install,1 remove), u32 n, n*(key[20], value[4]) -> s32 ret
+ *  9 SOCKETS         u32 n, n*{u32 id,u8 proto,u8 family(4/6),u8 state,s8 listen_slot,
+ *                      u8 local_ip[16],u16 local_port,u8 remote_ip[16],u16 remote_port,u32 mark} -> s32 ret
+ * 10 ROUTE           u8 want_log, u32 flag[8], blob l4hdr(<=64), u8 saddr[16], u8 daddr[16], u8 mac[16]
+ *                    -> s64 ret, u8 lpm_key_saddr[20], lpm_key_daddr[20], lpm_key_mac[20],
+ *                       u16 h_dport, u16 h_sport, u8 is_wan, oplog
+ * 11 RUN             str prog (C function name), u8 want_log, skb meta {u32 protocol, ifindex,
+ *                      ingress_ifindex, mark, cb[5], pkt_type; u64 cookie, pid_tgid; u8 comm[16]; str args},
+ *                      blob frame, u32 linear_len, u8 pull_fails
+ *                    -> s32 verdict, u32 mark, u32 cb[5], u32 pkt_type, u8 redirect_kind(0 none,1 redirect,
+ *                       2 redirect_peer), u32 redirect_ifindex, u64 redirect_flags, s32 sk_assign id(-1 none),
+ *                       s32 leaked socket refs, u32 linear_len, pull_calls, pull_failed, load_bytes_calls,
+ *                       store_bytes_calls, blob frame, u32 nevents, nevents*blob, oplog
+ * 12 KEYS_FRAME      u32 link_h_len, u32 protocol, blob frame, u32 linear_len, u8 pull_fails
+ *                    -> s32 parse_packet ret, blob tuples_key, blob reversed tuples_key, u8 dscp, u8 l4proto,
+ *                       blob redirect_tuple, blob src mac
+ * 13 ALIVE           u8 outbound, u8 l4proto, u16 dport(be), u32 protocol -> u8 alive, oplog
+ * 14 SET_MAX_ENTRIES str map, u32 n                            -> s32 ret
+ * 15 INFO            -  -> u32 sizeof(dae_param), u32 nmaps, nmaps*{str name,u32 type,key,value,max,flags},
+ *                          u32 nprogs, nprogs*{str name, str section}, u32 nconsts, nconsts*{str name, s64 value}
+ * 16 GET_PARAM       -                                         -> blob
+ * The Go client is /verif/harness/control/shared_kernsim_test.go. */
 #define _GNU_SOURCE
 #include <errno.h>
 #include <stdio.h>
@@ -216,7 +253,15 @@ static void param_write(const void *src)
 	}
 	if (mprotect((void *)a, e - a, PROT_READ | PROT_WRITE))
 		ks_harness_die("mprotect(PARAM, rw): %s", strerror(errno));
-	memcpy((void *)&PARAM, src, sizeof(PARAM));
+	{
+		/* PARAM is a const object: launder the pointer so the store cannot be
+		 * reasoned away, and write byte-wise through a volatile lvalue */
+		volatile unsigned char *dst = (volatile unsigned char *)&PARAM;
+
+		asm volatile("" : "+r"(dst));
+		for (size_t i = 0; i < sizeof(PARAM); i++)
+			dst[i] = ((const unsigned char *)src)[i];
+	}
 	if (mprotect((void *)a, e - a, orig_prot))
 		ks_harness_die("mprotect(PARAM, restore): %s", strerror(errno));
 }
@@ -527,6 +572,25 @@ static void do_info(void)
 		put_str(ks_progs[i].name);
 		put_str(ks_progs[i].section);
 	}
+	/* constants as the C compiler sees them: what the call sites of route() and the
+	 * verdict paths use (harnesses build route() inputs from these, not from Go consts) */
+#define KS_CONST(x) { #x, (int64_t)(x) }
+	{
+		static const struct { const char *name; int64_t v; } cs[] = {
+			KS_CONST(L4ProtoType_TCP), KS_CONST(L4ProtoType_UDP),
+			KS_CONST(IpVersionType_4), KS_CONST(IpVersionType_6),
+			KS_CONST(OUTBOUND_DIRECT), KS_CONST(OUTBOUND_BLOCK),
+			KS_CONST(OUTBOUND_CONTROL_PLANE_ROUTING), KS_CONST(OUTBOUND_MUST_RULES),
+			KS_CONST(OUTBOUND_LOGICAL_OR), KS_CONST(OUTBOUND_LOGICAL_AND), KS_CONST(OUTBOUND_LOGICAL_MASK),
+			KS_CONST(TPROXY_MARK), KS_CONST(MAX_MATCH_SET_LEN), KS_CONST(TASK_COMM_LEN),
+			KS_CONST(TC_ACT_OK), KS_CONST(TC_ACT_SHOT), KS_CONST(TC_ACT_PIPE), KS_CONST(TC_ACT_REDIRECT),
+		};
+		ks_buf_u32(&resp, (uint32_t)(sizeof(cs) / sizeof(cs[0])));
+		for (size_t i = 0; i < sizeof(cs) / sizeof(cs[0]); i++) {
+			put_str(cs[i].name);
+			ks_buf_u64(&resp, (uint64_t)cs[i].v);
+		}
+	}
 }
 
 static void handle(uint8_t op)
@@ -550,10 +614,13 @@ static void handle(uint8_t op)
 		param_write(v);
 		break;
 	case OP_GET_PARAM: {
-		struct dae_param cp;
+		/* read the way the programs do: volatile loads */
+		unsigned char cp[sizeof(struct dae_param)];
+		const volatile unsigned char *srcp = (const volatile unsigned char *)&PARAM;
 
-		memcpy(&cp, (const void *)&PARAM, sizeof(cp));
-		put_blob(&cp, sizeof(cp));
+		for (size_t i = 0; i < sizeof(cp); i++)
+			cp[i] = srcp[i];
+		put_blob(cp, sizeof(cp));
 		break;
 	}
 	case OP_SET_CLOCK:
